@@ -423,6 +423,20 @@ def num_leaf(I, fr, callee, args, dest, argops, line):
     t = I.F.types[dest]
     if name in simple and len(args) == 2:
         return tm.iop(simple[name], ty, args[0], args[1])
+    if name in ('checked_add', 'checked_sub', 'checked_mul') and all(tm.is_const(a) for a in args):
+        # constant folding (slice-range arithmetic on literal bounds)
+        bits, signed = tm.ity_parse(ty)
+        x, y = tm._val(args[0], bits, signed), tm._val(args[1], bits, signed)
+        r = {'checked_add': x + y, 'checked_sub': x - y, 'checked_mul': x * y}[name]
+        lo, hi = (-(1 << (bits - 1)), (1 << (bits - 1)) - 1) if signed else (0, (1 << bits) - 1)
+        out = Agg(t['sz'])
+        ok = lo <= r <= hi
+        out.discr[(0, dest)] = const(1 if ok else 0, 16)
+        if ok:
+            for v in t['variants']['vs']:
+                for (off, fid, _n) in v['fields']:
+                    out.cells[off] = (I.F.types[fid]['sz'], const(r & ((1 << bits) - 1), bits // 8))
+        return out
     call = mk(name + ':' + ty, *args)
     if I.is_scalar(dest):
         if t.get('k') == 'bool':
@@ -621,3 +635,74 @@ def build():
     t = LeafTable()
     t.update(LEAF)
     return t
+
+
+# ---------------------------------------------------------------------------------------------
+# array::IntoIter reductions ([a, b, c].into_iter().max() etc.) modelled at the API level
+
+_INTOITER_RE = re.compile(r'^core::array::iter::<impl core::iter::IntoIterator for \[T; N\]>::into_iter$')
+
+
+def _iter_elems(I, fr, v, argop):
+    # the IntoIter value is stored with the array cells at offset 0 (see _array_into_iter);
+    # recover element type / count from the callee's Self type name
+    tyid = I.op_ty(fr, argop)
+    n = I.F.types[tyid]['n']
+    m = re.match(r'^(?:std|core)::array::IntoIter<(.+), (\d+)>$', n)
+    if not m:
+        raise Abort('iterator reduction over %s' % n)
+    cnt = int(m.group(2))
+    ename = m.group(1)
+    et = I.F.type_by_name(ename)
+    if et is None:
+        raise Abort('iterator element type %s' % ename)
+    sz = et['sz']
+    elems = []
+
+    def find_array(tid, base):
+        t = I.F.types[tid]
+        if t.get('k') == 'array' and t.get('count') == cnt:
+            return base
+        for (off, fid, _n) in t.get('fields', []):
+            r = find_array(fid, base + off)
+            if r is not None:
+                return r
+        return None
+    data = find_array(tyid, 0)
+    if data is None:
+        raise Abort('iterator data field')
+    # the iterator must be fresh: alive range 0..N
+    for j in range(cnt):
+        c = v.cells.get(data + j * sz)
+        if c is None or c[0] != sz:
+            raise Abort('iterator element cell')
+        elems.append(c[1])
+    return elems, et
+
+
+def _some(I, dest, val):
+    t = I.F.types[dest]
+    out = Agg(t['sz'])
+    vs = t['variants']['vs']
+    some = [i for i, v in enumerate(vs) if v['name'] == 'Some'][0]
+    out.discr[(0, dest)] = const(int(vs[some]['discr']), 16)
+    (off, fid, _n) = vs[some]['fields'][0]
+    if isinstance(val, T):
+        out.cells[off] = (I.F.types[fid]['sz'], val)
+    else:
+        for o, c in val.cells.items():
+            out.cells[off + o] = c
+    return out
+
+
+@leaf('core::iter::Iterator::max', 'core::iter::Iterator::min')
+def _iter_max(I, fr, callee, args, dest, argops, line):
+    name = callee['d'].rsplit('::', 1)[1]
+    elems, et = _iter_elems(I, fr, args[0], argops[0])
+    if not elems:
+        raise Abort('empty iterator reduction')
+    tn = ('i' if et.get('signed') else 'u') + str(et['sz'] * 8)
+    acc = elems[0]
+    for e in elems[1:]:
+        acc = tm.iop(name, tn, acc, e) if et.get('k') == 'int' else tm.f2('f' + name, acc, e)
+    return _some(I, dest, acc)
